@@ -229,6 +229,12 @@ def _unique_stmt_def(b, local):
     return found[0] if len(found) == 1 else None
 
 
+def _mentions_local(c, local):
+    import json as _json
+    txt = _json.dumps([[st for st in blk['stmts']] + [blk['term']] for blk in c['blocks']])
+    return ('"local": %d,' % local) in txt or ('"local": %d}' % local) in txt
+
+
 def inline_closure_call(b, bb, pristine):
     """`let f = |a, b| body; .. f(x, y) ..` — the direct call of a closure defined in the same function is its body with the parameters
     bound to the arguments and the captures to the captured places.  Returns the closure body grafted, or None."""
@@ -241,9 +247,13 @@ def inline_closure_call(b, bb, pristine):
     env, tup = t['args']
     if env['k'] not in ('move', 'copy') or env['place']['proj'] or tup['k'] not in ('move', 'copy') or tup['place']['proj']:
         return None
-    # the closure value: the operand itself, or what it borrows
+    # the closure value: the operand itself, or what it borrows; a closure that captures nothing can be called from anywhere (typically
+    # from another closure that captured it: `let is_zero = |r| ..; rows.filter(|r| !is_zero(r))`), its body does not depend on the value
     clo_local = env['place']['local']
-    if M._unique_closure_def(b, clo_local) != path:
+    env_free = not _mentions_local(c, 1)
+    if env_free:
+        clo_local = None
+    elif M._unique_closure_def(b, clo_local) != path:
         rv = _unique_stmt_def(b, clo_local)
         if rv is None or rv['k'] != 'ref' or rv['place']['proj'] or M._unique_closure_def(b, rv['place']['local']) != path:
             return None
@@ -256,14 +266,14 @@ def inline_closure_call(b, bb, pristine):
     span = t['span']
     # a capture by value holds what the variable was when the closure was made; reading the variable at the call instead is the same only
     # if it is never assigned again (parameters and single-assignment locals)
-    for cap in M._capture_places(b, clo_local):
+    for cap in (M._capture_places(b, clo_local) if clo_local is not None else []):
         if cap is not None and cap[0] == 'val':
             l = cap[1]['local']
             if l > b['arg_count'] and len(_defs_of(b, l)) != 1:
                 return None
             if l <= b['arg_count'] and l != 0 and _defs_of(b, l):
                 return None
-    g = _graft(b, copy.deepcopy(c), {'k': 'copy', 'place': _pl(clo_local)}, [{'k': 'use', 'op': op} for op in rv['ops']], span)
+    g = _graft(b, copy.deepcopy(c), ({'k': 'copy', 'place': _pl(clo_local)} if clo_local is not None else None), [{'k': 'use', 'op': op} for op in rv['ops']], span)
     b['blocks'][bb]['term'] = {'k': 'goto', 'target': g['entry'], 'span': span, 'exp': True}
     b['blocks'][g['exit']] = {'cleanup': False, 'stmts': [{'k': 'assign', 'place': t['dest'], 'rv': {'k': 'use', 'op': {'k': 'move', 'place': _pl(g['ret'])}}, 'span': span, 'exp': True}],
                               'term': {'k': 'goto', 'target': t['target'], 'span': span, 'exp': True}}
